@@ -42,11 +42,12 @@ RULE = (
     "case = one generated first flight: a reference-built TLS (or, smaller share, DTLS) ClientHello with random "
     "legacy version, session id, 0-40 cipher suites incl. GREASE, shuffled extensions incl. unknown/empty ones, an "
     "SNI class (absent, plain, upper-case, 63-byte label, 253-byte name, A-label, IPv4, underscore, two names, "
-    "non-hostname type, invalid bytes, trailing dot, IPv6, 255 bytes, empty) and an ALPN class; wrapped into records "
+    "non-hostname type, invalid bytes, trailing dot, IPv6, 255 bytes, empty name, empty name list) and an ALPN class; wrapped into records "
     "by a fragmentation pattern (single, cut inside the 4-byte handshake header, random cuts, 1-byte records) and cut "
     "into TCP segments (whole, random, inside the record header, record aligned, byte-wise); or a mutation of such a "
     "hello (length field +-1, structural truncation, type byte, empty record, interleaved alert, byte flips, bad "
-    "record type/version, trailing garbage) or random bytes. distinct = (kind, SNI class, ALPN class, size classes, "
+    "record type/version, trailing garbage), a hello with a degenerate server_name / ALPN body (empty list, zero-length names, list "
+    "length not matching, truncated entry) or random bytes. distinct = (kind, SNI class, ALPN class, size classes, "
     "fragmentation pattern, segmentation pattern, verdict); non-trivial = a complete hello was parsed and compared, "
     "or a rejection/exception site was reached"
 )
@@ -86,7 +87,7 @@ def gen_sni(r):
     """-> (class, names or None, strict_expected: bool). names = list of (type, bytes)."""
     k = r.choice(
         ["none", "host", "host", "host", "upper", "label63", "name253", "alabel", "ipv4", "underscore", "digits", "hyphen",
-         "two", "host+other", "other+host", "othertype", "badbytes", "trailingdot", "ipv6", "name255", "empty", "fakealabel", "edgehyphen", "label64", "emptylabel"]
+         "two", "host+other", "other+host", "othertype", "badbytes", "trailingdot", "ipv6", "name255", "empty", "fakealabel", "edgehyphen", "label64", "emptylabel", "emptylist", "emptylist"]
     )
     if k == "none":
         return k, None, True
@@ -122,6 +123,8 @@ def gen_sni(r):
         return k, [(0, h), (r.choice([1, 2, 255]), rlabel(r))], False
     if k == "other+host":
         return k, [(r.choice([1, 2, 255]), rlabel(r)), (0, h)], False
+    if k == "emptylist":
+        return k, [], True  # server_name extension whose ServerNameList has no entry (body 00 00) -> no name, must be None
     if k == "othertype":
         return k, [(r.choice([1, 2, 255]), h)], True  # no host_name at all -> must be None
     if k == "badbytes":
@@ -753,8 +756,41 @@ def ref_verdict(data, dtls=False):
         return "reject", str(e)
 
 
+DEGENERATE_BODIES = {
+    0: [b"\x00\x00", b"", b"\x00", b"\x00\x03\x00\x00\x00", b"\x00\x00\x00\x00\x03abc", b"\x00\x09\x00\x00\x03abc", b"\x00\x06\x00\x00\x03abc\x00",
+        b"\xff\xff\x00\x00\x01a", b"\x00\x03\x01\x00\x00", b"\x00\x06\x00\x00\x00\x00\x00\x00", b"\x00\x04\x00\x00\x05a"],
+    16: [b"\x00\x00", b"", b"\x00", b"\x00\x01\x00", b"\x00\x00\x02h2", b"\x00\x09\x02h2", b"\x00\x03\x02h2\x00", b"\x00\x02\x05h", b"\x00\x02\x00\x00"],
+}
+
+
+def gen_degenerate(r):
+    """A structurally complete hello whose server_name / ALPN extension body is degenerate: empty list, zero-length
+    names, list length not matching the body, truncated entry. -> (name, dtls, wire)"""
+    dtls = r.random() < 0.2
+    t = r.choice([0, 0, 16])
+    body = r.choice(DEGENERATE_BODIES[t])
+    exts = [(t, body)]
+    if r.random() < 0.5:
+        exts.append((0, T.sni_ext_body([(0, rhost(r))])) if t == 16 or r.random() < 0.5 else (16, T.alpn_ext_body([b"h2"])))
+    for _ in range(r.choice([0, 0, 1, 3])):
+        exts.append((r.choice(EXT_POOL + T.GREASE), bytes(r.getrandbits(8) for _ in range(r.choice([0, 2, 9])))))
+    r.shuffle(exts)
+    hs = T.build_client_hello(
+        ciphers=[r.choice(CIPHER_POOL) for _ in range(r.choice([1, 3, 9]))], extensions=exts, dtls=dtls,
+        legacy_version=0xFEFD if dtls else 0x0303, random=bytes(r.getrandbits(8) for _ in range(32)),
+        session_id=bytes(r.getrandbits(8) for _ in range(r.choice([0, 32]))), cookie=b"",
+    )
+    if dtls:
+        return f"degenerate-ext{t}", True, T.wrap_records(hs, dtls=True, version=0xFEFD)
+    return f"degenerate-ext{t}", False, T.wrap_records(hs, gen_cuts(r, len(hs))[1] if r.random() < 0.4 else [])
+
+
 def check_hostile(ctx, r):
-    if r.random() < 0.78:
+    x = r.random()
+    if x < 0.14:
+        kind, dtls, wire = gen_degenerate(r)
+        feats = None
+    elif x < 0.80:
         hs, truth, feats = gen_hello(r)
         kind, wire = mutate(r, hs)
         dtls = False
